@@ -17,9 +17,12 @@ from verif.mdibharness import Projector
 from verif.pair import Pair
 from verif.tlc import MachineryError, json_lines, run_tlc
 
-KINDS = ['set_string', 'activate', 'set_value', 'set_alert_state', 'set_context_state']
+KINDS = ['set_string', 'activate', 'set_value', 'set_alert_state', 'set_context_state', 'set_metric_state',
+         'set_component_state']
 OPS = {'set_string': 'DN_SET', 'activate': 'AP__ON', 'set_value': 'numeric.ch0.vmd1_sco_0',
-       'set_alert_state': 'as0.mds0_rem_dele', 'set_context_state': 'opSetPatCtx'}
+       'set_alert_state': 'as0.mds0_rem_dele', 'set_context_state': 'opSetPatCtx',
+       # the last two operations exist only in fixtures/one_mds_ops.xml (copy of one_mds.xml + two operation descriptors)
+       'set_metric_state': 'opSetMetricState', 'set_component_state': 'opSetComponentState'}
 STATE = {'Wait': 'Wait', 'Start': 'Start', 'Fin': 'Fin', 'FinMod': 'FinMod', 'Fail': 'Fail', 'Cnclld': 'Cnclld',
          'CnclldMan': 'CnclldMan'}
 
@@ -44,7 +47,9 @@ class ProviderSession:
         self._sco, self._sco_queue = sco, sco.queue
         sco.queue = types.SimpleNamespace(Queue=FastQueue, Empty=queue.Empty, Full=queue.Full)
         try:
-            self.pair = Pair(**kw)
+            import os
+            from verif.common import VERIF
+            self.pair = Pair(fixture=os.path.join(VERIF, 'fixtures', 'one_mds_ops.xml'), **kw)
         finally:
             sco.queue = self._sco_queue
         self.proj = Projector(['vmd', 'ch', 'm1', 'pc'], [])
@@ -75,6 +80,14 @@ class ProviderSession:
         if kind == 'set_alert_state':
             st = self.pair.cmdib.xtra.mk_proposed_state('as0.mds0_rem')
             return s.set_alert_state(handle, st)
+        if kind == 'set_metric_state':
+            st = self.pair.cmdib.xtra.mk_proposed_state('numeric.ch0.vmd0')
+            st.LifeTimePeriod = float(self.n)
+            return s.set_metric_state(handle, [st])
+        if kind == 'set_component_state':
+            st = self.pair.cmdib.xtra.mk_proposed_state('ch0.vmd0')
+            st.OperatingHours = self.n
+            return s.set_component_state(handle, [st])
         ctx = c.context_service_client
         st = ctx.mk_proposed_context_object('PC.mds0')
         return ctx.set_context_state(handle, [st])
